@@ -84,6 +84,8 @@ type SchedParams struct {
 	// delivery at once between two quiescent points. Which inputs form a burst stays seeded; the interleaving
 	// inside a burst is left to the Go scheduler (this is the one place the simulator gives up schedule control).
 	Free bool `json:"free,omitempty"`
+	// YieldUnlock: probability that a mutex release is followed by a park point (0: never)
+	YieldUnlock float64 `json:"yield_unlock,omitempty"`
 }
 
 type lockReq struct {
@@ -97,6 +99,7 @@ type lockReq struct {
 
 // Stats counts what actually happened in a run (measured, for evidence).
 type Stats struct {
+	Yields       int            `json:"yields,omitempty"`
 	Bursts       int            `json:"bursts,omitempty"`
 	BurstMax     int            `json:"burst_max,omitempty"`
 	Steps        int            `json:"steps"`
@@ -126,6 +129,7 @@ type Kernel struct {
 	listeners    map[string]*Listener
 	stubs        map[string]StubFactory
 	udpSt        *udpState
+	unlockSeq    uint64
 	fsTrace      []string
 	udpBusyPorts map[int]bool
 	lockReqs     []*lockReq
@@ -349,7 +353,34 @@ func (k *Kernel) unlockHook(m interface{}) {
 		}
 		k.heldBy[r.gid] = hs
 	}
+	// Goroutines are only pre-empted at park points. A real scheduler can also switch right after a mutex is
+	// released (the classic window of "published under the lock, finished outside it"); with YieldUnlock a seeded
+	// subset of unlocks becomes a park point too.
+	yield := false
+	if k.P.YieldUnlock > 0 {
+		k.unlockSeq++
+		yield = float64(Mix(k.Seed, 0x751d+k.unlockSeq)%10000)/10000 < k.P.YieldUnlock
+	}
 	k.mu.Unlock()
+	if yield {
+		tok := new(int)
+		k.lockHook(tok, "yield@unlock")
+		k.mu.Lock()
+		if r := k.owners[tok]; r != nil {
+			delete(k.owners, tok)
+			hs := k.heldBy[r.gid]
+			for i := len(hs) - 1; i >= 0; i-- {
+				if hs[i] == r {
+					hs = append(hs[:i], hs[i+1:]...)
+					break
+				}
+			}
+			k.heldBy[r.gid] = hs
+		}
+		delete(k.seenMutex, tok)
+		k.Stats.Yields++
+		k.mu.Unlock()
+	}
 }
 
 func (k *Kernel) keysHook(site string, n int) []int {
@@ -639,6 +670,9 @@ func (k *Kernel) choose(acts []action) action {
 		if found {
 			break
 		}
+		if a.kind == "grant" && a.req.site == "yield@unlock" {
+			continue // a goroutine that yields wants the others to go first
+		}
 		if (a.kind == "grant" && a.req.gid == k.lastGid) || (a.kind == "write" && a.wreq.gid == k.lastGid) {
 			pref, found = i, true
 			break
@@ -646,7 +680,15 @@ func (k *Kernel) choose(acts []action) action {
 	}
 	if !found {
 		for i, a := range acts {
-			if a.kind == "grant" || a.kind == "write" {
+			if (a.kind == "grant" && a.req.site != "yield@unlock") || a.kind == "write" {
+				pref, found = i, true
+				break
+			}
+		}
+	}
+	if !found {
+		for i, a := range acts {
+			if a.kind == "grant" {
 				pref, found = i, true
 				break
 			}
